@@ -16,6 +16,9 @@ VERIF = pathlib.Path(__file__).resolve().parent.parent
 REPO = pathlib.Path(os.environ.get("VERIF_REPO", "/repo"))
 
 EXIT_OK, EXIT_VIOLATION, EXIT_HARNESS = 0, 1, 3
+#: replays per (case, obligation) with one classification before further
+#: models of that class are counted without an individual replay
+REPLAYS_PER_CLASS = 3
 
 # ------------------------------------------------------------ real code
 _MUTANT = {}  # (module, qualname) -> (old, new)
@@ -292,14 +295,24 @@ def main(pid, tier, seed=0, only_canaries=False):
                   if f["property"] == pid}
     replayed, reported_known, new_viol, spurious = 0, {}, [], []
     rcache = {}
+    confirmed, not_replayed = {}, 0
     for case, params, v in viol:
         try:
             sig = json.dumps([case, v["what"], jsonable(v.get("values")),
                               jsonable(v.get("info"))], sort_keys=True)
         except Exception:
             sig = None
+        cls = (case, v["what"])
         if sig is not None and sig in rcache:
             rr = rcache[sig]
+        elif len(confirmed.get(cls, [])) >= REPLAYS_PER_CLASS:
+            # the same obligation of the same case already reproduced
+            # several times with one classification: further models of it
+            # are counted with that class, not replayed one by one
+            rr = dict(confirmed[cls][-1], detail=confirmed[cls][-1][
+                "detail"] + " [further model of the same case/obligation, "
+                "not replayed individually]")
+            not_replayed += 1
         else:
             try:
                 rr = mod.replay(case, params, v)
@@ -310,6 +323,12 @@ def main(pid, tier, seed=0, only_canaries=False):
             replayed += 1
             if sig is not None:
                 rcache[sig] = rr
+            if rr["reproduced"]:
+                lst = confirmed.setdefault(cls, [])
+                if not lst or lst[-1]["key"] == rr["key"]:
+                    lst.append(rr)
+                else:
+                    confirmed[cls] = []
         if not rr["reproduced"]:
             spurious.append({"case": case, "what": v["what"],
                              "values": v.get("values"), "info": v.get("info"),
@@ -435,6 +454,7 @@ def main(pid, tier, seed=0, only_canaries=False):
             "outside_claim": getattr(mod, "OUTSIDE", []),
             "stubs": getattr(mod, "STUBS", []),
             "counterexamples_replayed": replayed,
+            "counterexamples_same_class_not_replayed": not_replayed,
             "known_findings_hit": sorted(reported_known),
             "canaries_total": can_total, "canaries_detected": can_det,
             "canaries": can_detail,
